@@ -4,7 +4,7 @@ PROP = {
     "level": "exploration",
     "rule": ("histories of <=60 requests to 1-3 strategy-based throttling remedies (allowed 1-10, window 1-5 s, optional status, "
              "optional group allocation table with integer/non-integer/0/>100 percentages and default behaviour allow/block/"
-             "use_default_allocation/undefined) (before one step in three-and-a-half the counters are read as the metrics gauge does, at the step's instant or half-way since the previous step) at exact virtual instants k*W, k*W+1ns, k*W+W/2, (k+1)*W-1ns, repeated and random, "
+             "use_default_allocation/undefined) (before about one step in three the counters are read as the metrics gauge does: at the step's instant, half-way since the previous step, or - single requests - while the read is in progress: the request is issued from another goroutine when the read takes its 1st-3rd clock reading and the read waits up to 300 us for it; a burst with a read has a reader goroutine running next to it) at exact virtual instants k*W, k*W+1ns, k*W+W/2, (k+1)*W-1ns, repeated and random, "
              "with window-size changes between requests (TestSequentialWindows, TestIsolation) and bursts of 2-32 requests issued by up to 8 concurrent callers "
              "(TestBurst), driven through StrategyBasedThrottlingPlugin.OnRequest over limit.NewRateLimitState on a virtual clock; "
              "non-trivial = a request of a (remedy, group) that was seen before arrives exactly on a grid instant while the previous "
